@@ -96,7 +96,7 @@ EXPORT errno_t _strcmp_s_chk(const char *dest, rsize_t dmax, const char *src,
     }
 
     slen = 0;
-    while (*dest && *src && dmax) {
+    while (dmax && *dest && *src) {
 
         if (*dest != *src) {
             break;
@@ -114,7 +114,8 @@ EXPORT errno_t _strcmp_s_chk(const char *dest, rsize_t dmax, const char *src,
             return RCNEGATE(ESUNTERM);
         }
     }
-    *resultp = *dest - *src;
+    /* equal within the first dmax characters */
+    *resultp = dmax ? *dest - *src : 0;
     return RCNEGATE(EOK);
 }
 #ifdef __KERNEL__
